@@ -13,8 +13,12 @@ static void esc(const char *s, char *out, size_t n) { mc_esc(s, s ? strlen(s) : 
 
 /* ------------------------------------------------------------------ safe_strncpy */
 typedef struct { int size, srclen; } cpy_case;
+static const int BIGS[] = { 127, 128, 129, 255, 256, 257, 4095, 4096, 4097, 32767, 32768, 32769, 65535, 65536, 65537 };     /* sizes where a narrow counter or a chunked copy would turn over */
+#define NBIGS ((int) (sizeof BIGS / sizeof BIGS[0]))
+static int g_big;
 static void cpy_decode(uint64_t idx, cpy_case *c)
 {
+    if (g_big) { c->size = BIGS[idx / 4]; c->srclen = c->size - 2 + (int) (idx % 4); return; }
     int nsz = L + 4;                            /* sizes -1 .. L+2 */
     c->size = (int) (idx % (uint64_t) nsz) - 1;
     c->srclen = (int) (idx / (uint64_t) nsz);   /* 0 .. L+1 */
@@ -60,6 +64,9 @@ static uint64_t cat_count(void)
 }
 static void cat_decode(uint64_t idx, cat_case *c)
 {
+    if (g_big) { int sz = BIGS[idx / 20], d = (int) ((idx / 5) % 4), r = (int) (idx % 5);
+        c->size = sz; c->destlen = d == 0 ? 0 : (d == 1 ? sz / 2 : (d == 2 ? sz - 2 : sz - 1));
+        int room = sz - c->destlen - 1; c->srclen = r == 0 ? 0 : (r == 1 ? 1 : (r == 2 ? (room > 0 ? room - 1 : 0) : (r == 3 ? room : room + 1))); return; }
     for (int size = -1; size <= L + 2; size++) {
         uint64_t per = (uint64_t) ((size > 0 ? size : 1) + 2) * (uint64_t) (L + 2);
         if (idx < per) { c->size = size; c->destlen = (int) (idx / (uint64_t) (L + 2)); c->srclen = (int) (idx % (uint64_t) (L + 2)); return; }
@@ -257,18 +264,64 @@ static void inpl_case_fn(uint64_t idx, void *ctx)
     }
 }
 
+/* ---- long runs: a run of n equal bytes (n around 127/255/256/4096/65536) at the start, in the middle, at the end of, or as the whole string */
+static const int RUNS[] = { 127, 128, 255, 256, 257, 258, 511, 512, 513, 4095, 4096, 4097, 65535, 65536, 65537 };
+#define NRUNS ((int) (sizeof RUNS / sizeof RUNS[0]))
+static const unsigned char RUNC[6] = { ' ', '\t', 'a', 'Z', 0x01, 0xE9 };
+static void run_decode(uint64_t idx, int *n, int *c, int *where) { *where = (int) (idx % 4); idx /= 4; *c = RUNC[idx % 6]; idx /= 6; *n = RUNS[idx % NRUNS]; }
+static void run_desc(uint64_t idx, void *ctx, char *b, size_t n_)
+{
+    int n, c, w; (void) ctx; run_decode(idx, &n, &c, &w);
+    static const char *wn[4] = { "\"ab\" + run + \"cd\"", "run + \"cd\"", "\"ab\" + run", "the run alone" };
+    snprintf(b, n_, "all in-place helpers on %s with a run of %d bytes 0x%02x", wn[w], n, c);
+}
+static void run_case(uint64_t idx, void *ctx)
+{
+    int n, c, w; (void) ctx; run_decode(idx, &n, &c, &w);
+    size_t len = (size_t) n + (w == 0 ? 4 : (w == 3 ? 0 : 2));
+    char *in = malloc(len + 1), *exp = malloc(len + 1); size_t o = 0;
+    if (w == 0 || w == 2) { in[o++] = 'a'; in[o++] = 'b'; }
+    memset(in + o, c, (size_t) n); o += (size_t) n;
+    if (w == 0 || w == 1) { in[o++] = 'c'; in[o++] = 'd'; }
+    in[o] = 0;
+    char shape[48]; snprintf(shape, sizeof shape, "run of %s bytes", n < 256 ? "fewer than 256" : (n < 4096 ? "256..4095" : (n < 65536 ? "4096..65535" : "65536 or more")));
+    mc_set_shape(shape);
+    for (int f = 0; f < NFUNC; f++) {
+        int ks[3] = { 0, n / 2, len < 65535 ? (int) len : 65535 };        /* the count is the caller's: never beyond the string */
+        for (int ki = 0; ki < (f == F_SAFE ? 3 : 1); ki++) {
+            int k = ks[ki];
+            ref_apply(f, in, k, exp);
+            char *s = mc_heapstr(in);
+            char *r = call(f, s, k);
+            if (!r) FAIL(FN[f], "model:return", shape, "returned NULL");
+            else {
+                if (strcmp(r, exp)) { size_t d = 0; while (r[d] && r[d] == exp[d]) d++; FAIL(FN[f], "model:content", shape, "result (%zu bytes) differs from the reference (%zu bytes) at offset %zu", strlen(r), strlen(exp), d); }
+                if (strlen(r) > len) FAIL(FN[f], "model:lengthened", shape, "result longer than input");
+                free(r);
+            }
+        }
+    }
+    free(in); free(exp);
+    mc_nontrivial();
+    mc_outcome(idx);
+}
 int main(int argc, char **argv)
 {
     mc_init("C13", argc, argv);
     libast_debug_level = (unsigned) mc_dlevel();        /* --dlevel=N: the whole run at runtime debug level N (default 0) */
     L = (int) mc_arg_int("L", mc_thorough() ? 7 : 4);
     if (L > 9) L = 9;
-    mc_info("alphabet", "in-place: {a,Z,space,tab,newline,0x01,0xE9}^<=%d; strncpy/strncat: size -1..%d, src 0..%d, dest prefix 0..size+1; substr: len<=%d, idx,cnt in [-%d,%d]",
+    mc_info("alphabet", "in-place: {a,Z,space,tab,newline,0x01,0xE9}^<=%d; strncpy/strncat: size -1..%d, src 0..%d, dest prefix 0..size+1; substr: len<=%d, idx,cnt in [-%d,%d]; in-place helpers on runs of 127..65537 equal bytes; strncpy/strncat with sizes 127..65537 and lengths at size-2..size+1",
             L, L + 2, L + 1, L, L + 2, L + 2);
     mc_e2_level("safe_strncpy", L, (uint64_t) (L + 4) * (uint64_t) (L + 2), cpy_case_fn, cpy_desc, NULL);
     mc_e2_level("safe_strncat", L, cat_count(), cat_case_fn, cat_desc, NULL);
     { uint64_t w = (uint64_t) (2 * (L + 2) + 1); mc_e2_level("substr", L, (uint64_t) (L + 1) * w * w, sub_case_fn, sub_desc, NULL); }
     for (g_len = 0; g_len <= L; g_len++)
         if (!mc_e2_level("inplace", g_len, mc_words_of_len(NSYM, g_len), inpl_case_fn, inpl_desc, NULL)) break;
+    mc_e2_level("inplace_runs", 65537, (uint64_t) NRUNS * 6 * 4, run_case, run_desc, NULL);
+    g_big = 1;
+    mc_e2_level("safe_strncpy_big", 65537, (uint64_t) NBIGS * 4, cpy_case_fn, cpy_desc, NULL);
+    mc_e2_level("safe_strncat_big", 65537, (uint64_t) NBIGS * 20, cat_case_fn, cat_desc, NULL);
+    g_big = 0;
     return mc_finish();
 }
